@@ -15,18 +15,25 @@
 (* Checked here: RoundTrip (Unzip(Zip(t)) = t), ListIsCreated, for every   *)
 (* scenario of the enumeration; the sensitivity configuration             *)
 (* (DirEntries = FALSE: directories are not given entries of their own)    *)
-(* must violate RoundTrip - empty directories get lost.                    *)
+(* must violate RoundTrip - empty directories get lost; so must the one    *)
+(* where the destination is overwritten in place (Truncates = FALSE).      *)
 (* The scenarios are emitted for the harness, which materialises them,     *)
 (* runs the real Zip / Unzip / NewZipFileSystem / NewTarFileSystem and     *)
 (* records dumps judged by ArchiveTrace.tla.                               *)
 (***************************************************************************)
 EXTENDS Naturals, Sequences, FiniteSets, TLC, Json
 
-CONSTANT DirEntries      \* TRUE: as coded (a header per directory)
+CONSTANT DirEntries,     \* TRUE: as coded (a header per directory)
+         Truncates       \* TRUE: as coded (the destination is created anew: what a file of that name held before is gone)
 
 NameClasses == <<"plain", "dot", "dotdot", "space", "uni", "meta", "long", "trail", "nl", "dash", "zipext">>
 Sizes == {0, 1, 4096, 32767, 32768, 32769, 3000001}
 MtClasses == {"even", "odd", "subsec", "old"}
+\* what the destination path of Zip holds beforehand: nothing, an empty file, or an older and LONGER archive (of the
+\* tree OlderTree).  A zip reader finds the central directory from the END of the file, so bytes left over from a longer
+\* predecessor would make it read the predecessor's directory.
+Priors == {"absent", "empty", "longer"}
+OlderTree == {[path |-> <<"plain">>, kind |-> "file", size |-> 5000000], [path |-> <<"uni">>, kind |-> "dir", size |-> 0]}
 
 \* shapes: positions (sequences of indices 1..3) with kinds
 Shapes == [ empty   |-> {},
@@ -36,11 +43,13 @@ Shapes == [ empty   |-> {},
             deep    |-> {<<<<1>>, "dir">>, <<<<1, 1>>, "dir">>, <<<<1, 1, 1>>, "file">>, <<<<1, 2>>, "dir">>, <<<<2>>, "file">>, <<<<1, 1, 3>>, "dir">>},
             flat    |-> {<<<<1>>, "file">>, <<<<2>>, "file">>, <<<<3>>, "dir">>} ]
 
-VARIABLES shape, first, stride, size, mt
-vars == <<shape, first, stride, size, mt>>
+VARIABLES shape, first, stride, size, mt, prior
+vars == <<shape, first, stride, size, mt, prior>>
 
 N == Len(NameClasses)
 Init == /\ shape \in DOMAIN Shapes /\ first \in 1..N /\ stride \in 1..3 /\ size \in Sizes /\ mt \in MtClasses
+        \* the scenario space is kept tractable: the state of the destination varies with one time class only
+        /\ prior \in Priors /\ (prior = "absent" \/ mt = "even")
 Next == UNCHANGED vars
 Spec == Init /\ [][Next]_vars
 
@@ -66,11 +75,14 @@ Unzip(es) ==
 ReturnedList(es) == {e.comps : e \in es}
 View(es) == Unzip(es)
 
-RoundTrip == Unzip(ZipEntries(Tree)) = Tree
-ListIsCreated == ReturnedList(ZipEntries(Tree)) = {n.path : n \in Tree}
-ViewIsTree == View(ZipEntries(Tree)) = Tree
+\* what a reader of the destination file sees after Zip
+Archive == IF prior = "longer" /\ ~Truncates THEN ZipEntries(OlderTree) ELSE ZipEntries(Tree)
+
+RoundTrip == Unzip(Archive) = Tree
+ListIsCreated == ReturnedList(Archive) = {n.path : n \in Tree}
+ViewIsTree == View(Archive) = Tree
 DistinctSiblings == \A a, b \in Tree : a.path = b.path => a = b
 
-Scenario == [shape |-> shape, mt |-> mt, nodes |-> Tree]
+Scenario == [shape |-> shape, mt |-> mt, prior |-> prior, nodes |-> Tree]
 Emit == PrintT(<<"BEHAVIOUR", ToJson(Scenario)>>)
 =============================================================================
